@@ -326,6 +326,54 @@ struct ArrayCheck {
 	}
 };
 
+// capacities on both sides of the widths of the index type (UCapacity<>): one maximal path, i.e. the array is filled item by item to
+// its capacity; count and the new item are compared after every append, everything (iteration, operator[], count, copy, copy-assign,
+// bulk append from arrays of length 0..3 where they fit, clear and refill) at the first steps, around every power of two and at capacity
+template <typename Item, Long C>
+static void largeArray() {
+	using AC = ArrayCheck<Item, C>;
+	using Arr = typename AC::Arr;
+	Arr a; std::vector<int> r; std::vector<std::string> h;
+	auto near2 = [](size_t n) { for (size_t p = 4; p <= 65536; p *= 2) if (n + 2 >= p && n <= p + 2) return true; return n <= 3; };
+	long local = 0;
+	h.push_back("fill to " + vt::str((long) C));
+	for (size_t n = 0; n <= (size_t) C; ++n) {
+		++g_states; ++local; ++g_edges; ++g_compared;
+		h.back() = "emplace x " + vt::str(n) + " (values i % 251)";
+		if ((size_t) a.count() != n) { AC::fail("count", "count()=" + vt::str((long) a.count()) + " after " + vt::str(n) + " appends", h); return; }
+		if (n && !ItemOps<Item>::same(a[(Long) (n - 1)], r[n - 1])) { AC::fail("index", "the item appended last reads back differently", h); return; }
+		if (near2(n) || n + 3 >= (size_t) C) {
+			if (!AC::observe(a, r, h)) return;
+			Arr b{a}; Arr c; c = a;
+			auto hc = h; hc.push_back("copy");
+			if (!AC::observe(b, r, hc) || !AC::observe(c, r, hc)) return;
+			for (size_t len = 0; len <= 3 && n + len <= (size_t) C; ++len) {
+				DynamicArrayT<Item, 3> src; std::vector<int> rr = r;
+				for (size_t i = 0; i < len; ++i) { src.emplace(ItemOps<Item>::make(1 + (int) i)); rr.push_back(1 + (int) i); }
+				Arr d{a}; d += src;
+				auto hd = h; hd.push_back("+=<3> of " + vt::str(len) + " item(s)");
+				++g_edges; ++g_compared;
+				if (!AC::observe(d, rr, hd)) return;
+			}
+			Arr e{a}; e.clear();
+			auto he = h; he.push_back("clear");
+			++g_edges; ++g_compared;
+			if (!AC::observe(e, std::vector<int>{}, he)) return;
+			e.emplace(ItemOps<Item>::make(2)); he.push_back("emplace2");
+			if (!AC::observe(e, std::vector<int>{2}, he)) return;
+		}
+		if (n < (size_t) C) {
+			const int v = (int) (n % 251);
+			const long b0 = vt::breaks().count;
+			const long idx = (long) a.emplace(ItemOps<Item>::make(v));
+			r.push_back(v);
+			if (idx != (long) n) { h.back() = "emplace x " + vt::str(n + 1); AC::fail("emplace-index", "emplace returned " + vt::str(idx) + " for item " + vt::str(n), h); return; }
+			if (vt::breaks().count != b0) { AC::fail("assert", "library assertion in emplace", h); vt::breaks().count = b0; return; }
+		}
+	}
+	printf("{\"type\":\"sub\",\"object\":\"%s (fill path)\",\"states\":%ld}\n", AC::cfg().c_str(), local);
+}
+
 // ---- StaticArrayT ----------------------------------------------------------------------------------
 
 template <typename T, Long C>
@@ -390,6 +438,10 @@ int main(int argc, char** argv) {
 	ArrayCheck<TransitionT<int>, 3>::run();
 	ArrayCheck<TransitionT<int>, 4>::run();
 	ArrayCheck<TransitionT<void>, 3>::run();
+	largeArray<TransitionT<int>, 15>(); largeArray<TransitionT<int>, 16>(); largeArray<TransitionT<int>, 17>();
+	largeArray<TransitionT<void>, 127>(); largeArray<TransitionT<int>, 128>();
+	largeArray<TransitionT<int>, 255>(); largeArray<TransitionT<int>, 256>(); largeArray<TransitionT<void>, 256>(); largeArray<TransitionT<int>, 257>();
+	largeArray<TransitionT<void>, 65535>();
 	if (thorough) {
 		ArrayCheck<TransitionT<int>, 6>::run();
 		ArrayCheck<TransitionT<void>, 5>::run();
